@@ -40,18 +40,33 @@ RULE = ("Hypothesis draws a condition kind (PINN, Mean, DeepRitz, SingleModule w
         "residual signature = drawn subset and order of the available names, some with defaults, "
         "optionally an extra defaulted name; 0-3 data functions with by-name signatures; a "
         "learnable Parameter (one variable, or two joined); 1-3 residual components; weight; 1-3 "
-        "forward calls cond(device='cpu', iteration=k). Data kinds: norm 1/2/3/'inf', root, per "
+        "forward calls (data kinds 1-4) whose iteration arguments follow a drawn schedule: the "
+        "Solver's training numbering 0,1,2,.., the default None in every call (validation / manual "
+        "evaluation), a non-decreasing numbering with repeats, or a free mix of None and numbers. "
+        "PIDeepONet: 1-2 function sets (static or not) over a parameter k, in half of the cases the "
+        "sampler leaf that carries t (the variable the input functions live on) is random and the "
+        "function-set outputs are forced into the residual signature. Data kinds: norm 1/2/3/'inf', root, per "
         "batch or full data set, constrain_fn, shuffled recording loaders. Oracles: spied "
         "coordinates bitwise equal the recorded sampler/loader output of this call (one draw per "
         "call), every other spied argument equals the closed-form model output / parameter / data "
-        "function / function-set value OF THE SAME ROWS (1e-5), autograd derivatives inside the "
+        "function / function-set value OF THE SAME ROWS of THIS call (1e-5; function sets: the "
+        "functions of the parameters last drawn from the recorded parameter sampler), autograd derivatives inside the "
         "residual equal the closed-form Jacobian (1e-4), forward() equals the documented reduction "
         "of the residual recomputed in float64 (1e-5), cond.weight is the given weight. "
         "Non-trivial: model input order differs from the sampler order, or >=2 data functions, or "
         "a multi-component residual, or parameter variables from a sampler product, or a non-PINN "
         "kind; distinct = spec hash without the rng seed.")
 ASSUMPTIONS = [
-    "conditions are called like Solver.training_step does: cond(device='cpu', iteration=k)",
+    "conditions are called like Solver.training_step does, cond(device='cpu', iteration=k), or "
+    "like Solver.validation_step / a manual evaluation does, cond(device='cpu') (iteration stays "
+    "None); the same condition may be called several times with the same iteration value and every "
+    "call must use the rows sampled in that call (one sampler draw per call for non-static samplers)",
+    "DeepONet conditions draw new function-set parameters once per iteration NUMBER "
+    "(DeepONet._forward_branch): a call whose iteration argument equals that of the previous call "
+    "may keep the function batch (0 or 1 draws of a non-static parameter sampler accepted), every "
+    "other call must draw exactly once; the expected branch input and function-set values are "
+    "always those of the last recorded parameters; iteration -1 (the initial marker of a "
+    "FunctionSet) is never passed",
     "every condition gets its own fresh dict of data functions (the write-back of "
     "_setup_data_functions into the caller's dict belongs to C14)",
     "float32 library values against float64 recomputation: |a-b| <= 1e-5*max(|b|, scale) + "
@@ -194,11 +209,30 @@ def _pnames(param):
 
 
 @st.composite
+def _its(draw):
+    """iteration argument of the successive forward calls (used cyclically): the Solver's
+    training numbering 0,1,2,.., the default None of every call (Solver.validation_step / manual
+    evaluation), a non-decreasing numbering with repeats, or a free mixture of both."""
+    mode = draw(st.sampled_from(["inc", "inc", "none", "repeat", "repeat", "free"]))
+    if mode == "inc":
+        return [0, 1, 2, 3]
+    if mode == "none":
+        return [None] * 4
+    if mode == "repeat":
+        out = [draw(st.integers(0, 3))]
+        for _ in range(3):
+            out.append(out[-1] + draw(st.sampled_from([0, 0, 1])))
+        return out
+    return [draw(st.sampled_from([None, None, 0, 1, 2, 7])) for _ in range(4)]
+
+
+@st.composite
 def _common(draw, kind):
     return {"kind": kind, "rng": draw(st.integers(0, 2 ** 31 - 1)),
             "m": draw(st.sampled_from([1, 1, 2, 3])),
             "weight": draw(st.sampled_from([1.0, 0.5, 2.0, 10.0])),
             "iters": draw(st.sampled_from([1, 2, 2, 3])),
+            "its": draw(_its()),
             "nderiv": draw(st.integers(0, 2))}
 
 
@@ -296,6 +330,12 @@ def _pideeponet_case(draw):
     spec["q"] = draw(st.integers(1, 3))
     spec["sampler"] = draw(_sampler(vs))
     spec["sampler"]["dep"] = False
+    if draw(st.booleans()):
+        # the input functions live on t: fresh random t rows in every call (a Grid/Data leaf
+        # returns the same t rows each time, which hides stale function-set values)
+        for g in spec["sampler"]["groups"]:
+            if any(v[0] == "t" for v in g["vars"]):
+                g["type"] = "random"
     spec["fout"] = [["f", draw(st.sampled_from([1, 1, 2]))]]
     if draw(st.sampled_from([False, False, True])):
         spec["fout"].append(["g", 1])
@@ -312,7 +352,8 @@ def _pideeponet_case(draw):
     spec["datafns"] = draw(_datafns(coords, kmax=2))
     rows = coords + [o[0] for o in spec["out"]] + [f["name"] for f in spec["datafns"]]
     rows += [f[0] for f in spec["fout"]]
-    spec["sig"] = draw(_signature(rows, _pnames(spec["param"])))
+    spec["sig"] = draw(_signature(rows, _pnames(spec["param"]),
+                                  force_all=[f[0] for f in spec["fout"]] if draw(st.booleans()) else ()))
     return spec
 
 
@@ -398,10 +439,39 @@ def _case(kind):
 def _train_start(spec, cond, it):
     """what Solver.on_train_start does with every condition before the first training step (move
     pre-evaluated static data to the training device); done before the second forward call of
-    every second case, so the first call checks the freshly built condition and the later ones
-    the condition as it is during training"""
-    if it == 1 and int(spec.get("rng", 0)) % 2 == 0 and hasattr(cond, "_move_static_data"):
+    every second case (pinned cases may say "train_start": true/false), so the first call checks
+    the freshly built condition and the later ones the condition as it is during training"""
+    do = spec.get("train_start")
+    do = int(spec.get("rng", 0)) % 2 == 0 if do is None else bool(do)
+    if it == 1 and do and hasattr(cond, "_move_static_data"):
         cond._move_static_data("cpu")
+
+
+def _schedule(spec):
+    """iteration argument of every forward call of the case; specs without "its" use the
+    Solver's training numbering 0, 1, 2, ..."""
+    n, its = int(spec["iters"]), spec.get("its")
+    if not its:
+        return list(range(n))
+    return [its[i % len(its)] for i in range(n)]
+
+
+def _forward(cond, itv):
+    """Solver.training_step: cond(device=, iteration=n_training_step);
+    Solver.validation_step / manual evaluation: cond(device=) (iteration stays None)"""
+    if itv is None:
+        return cond(device="cpu")
+    return cond(device="cpu", iteration=int(itv))
+
+
+def _sched_class(spec):
+    sched = _schedule(spec)
+    cl = []
+    if any(v is None for v in sched):
+        cl.append("iteration:default-None")
+    if any(a == b for a, b in zip(sched, sched[1:])):
+        cl.append("iteration:repeated")
+    return cl or ["iteration:increasing"]
 
 
 def strategy(tier):
@@ -467,6 +537,52 @@ def extra_cases(tier, seed):
                           sig={"names": ["u", "x", "v"], "defaults": [], "extra": False} if norm != 2 else None))
     cases.append({"kind": "ParameterCondition", "m": 2, "weight": 0.5, "iters": 2, "nderiv": 0, "param": [["D", 2]],
                   "sig": {"names": ["D"], "defaults": ["D"], "extra": True}})
+    # several forward calls with the SAME iteration argument (Solver.validation_step and manual
+    # evaluation leave it at None; a numbering with repeats): every call has to work on the rows
+    # sampled in that call.  PIDeepONet: non-static input sampler with a random t leaf (the input
+    # functions live on t) and the function-set outputs in the residual.
+    def rnd(vs, n, static=False, resample=0):
+        return {"static": static, "resample": resample, "combine": "single", "dep": False,
+                "groups": [{"type": "random", "vars": vs, "n": n, "dict": False}]}
+    pid = dict(base, kind="PIDeepONetCondition", q=2, ndisc=3, fparam=["k", 1], datafns=[], iters=3)
+    cases.append(dict(pid, vars=[t1], sampler=rnd([t1], 4), fout=[["f", 1]], out=[["u", 1]], m=1, nderiv=0,
+                      model={"type": "real", "fix": False, "perm": [0]}, param=None, its=[None],
+                      fsets=[{"n": 3, "type": "random", "static": False}],
+                      sig={"names": ["u", "f"], "defaults": [], "extra": False}))
+    cases.append(dict(pid, vars=[x2, t1], sampler=rnd([x2, t1], 3), fout=[["f", 2], ["g", 1]], fparam=["k", 2], its=[0, 0, 1],
+                      fsets=[{"n": 2, "type": "data", "static": False}, {"n": 1, "type": "random", "static": True}],
+                      datafns=fn[:1], sig={"names": ["g", "u", "t", "f", "x", "f1", "v", "D"], "defaults": ["D"], "extra": True}))
+    cases.append(dict(pid, vars=[t1, x2], sampler=prod([t1], [x2], 2, 2), fout=[["f", 1]], its=[None, 5, 5, None], iters=4,
+                      fsets=[{"n": 2, "type": "grid", "static": True}],
+                      sig={"names": ["x", "f", "v", "t", "u"], "defaults": ["f"], "extra": False}))
+    cases.append(dict(pid, vars=[t1], sampler=rnd([t1], 3, static=True, resample=2), fout=[["f", 1]], its=[3, 3, 3, 4], iters=4,
+                      model={"type": "analytic", "fix": False, "perm": [0]},
+                      fsets=[{"n": 2, "type": "random", "static": False}],
+                      sig={"names": ["f", "u", "t"], "defaults": [], "extra": False}))
+    for kind, its in (("PINNCondition", [None]), ("SingleModuleCondition", [2, 2, 3]), ("HPM_EquationLoss_at_Sampler", [None, 0, 0])):
+        hpm = kind.startswith("HPM")
+        c = dict(base, kind=kind, vars=[t1, x2], sampler=rnd([t1, x2], 3), datafns=fn, iters=3, its=its,
+                 sig={"names": (["x", "f2", "t", "f1"] if hpm else ["u", "x", "f2", "t", "v", "f1"]), "defaults": [], "extra": False})
+        if kind != "PINNCondition":
+            c.update(err="sq", red="mean")
+        cases.append(c)
+    cases.append(dict(base, kind="PeriodicCondition", vars=[t1, ["x", 1]], model={"type": "analytic", "fix": False, "perm": [1, 0]},
+                      sampler=rnd([t1], 3), interval=[0.25, 1.0], its=[None], iters=3,
+                      datafns=[{"name": "f1", "args": ["t", "x"], "dim": 1, "extra": False}],
+                      sig={"names": ["u_left", "t", "f1_right", "v_right", "f1_left"], "defaults": [], "extra": False},
+                      err="default", red="default"))
+    # static non-periodic sampler + data functions of the periodic variable, training started
+    # between the first and the second call (Solver.on_train_start)
+    cases.append(dict(base, kind="PeriodicCondition", vars=[t1, ["x", 1]], model={"type": "analytic", "fix": True, "perm": [1, 0]},
+                      sampler=rnd([t1], 3, static=True), interval=[-0.5, 1.25], its=[0, 1, 1], iters=3, train_start=True,
+                      datafns=[{"name": "f1", "args": ["x", "t"], "dim": 2, "extra": False},
+                               {"name": "f2", "args": ["x"], "dim": 1, "extra": True}],
+                      sig={"names": ["f2_right", "u_right", "f1_left", "t", "f1_right", "v_left", "f2_left"], "defaults": [], "extra": False},
+                      err="default", red="default"))
+    cases.append(dict(base, kind="IntegroPINNCondition", vars=[x2, t1], sampler=rnd([x2, t1], 2), its=[1, 1], iters=2,
+                      ivars=[t1], isampler=rnd([t1], 3), datafns=fn[:1],
+                      sig={"names": ["u_integral", "t_integral", "u", "x", "f1", "t"], "defaults": [], "extra": False},
+                      err="default", red="default"))
     for i, c in enumerate(cases):
         c = dict(c)
         c["rng"] = (seed * 7919 + 31 * i) % (2 ** 31 - 1)
@@ -1104,7 +1220,7 @@ def _classes(spec, net, prod, extra=()):
     if sig:
         cl += ["sig-defaults"] if sig["defaults"] else []
         cl += ["sig-extra"] if sig.get("extra") else []
-    return cl + list(extra)
+    return cl + _sched_class(spec) + list(extra)
 
 
 # ====================================================================== sampler kinds
@@ -1155,11 +1271,11 @@ def _run_sampler_kind(spec, ctx):
     ffeat = kind + ("|static-data-functions" if static and fns else "") \
         + ("|joined-parameter" if joined else "")
     worst = 0.0
-    for it in range(int(spec["iters"])):
+    for it, itv in enumerate(_schedule(spec)):
         before, calls = len(rec.records), len(spy.calls)
         with ctx.lib("forward", feature=ffeat):
             _train_start(spec, cond, it)
-            loss = cond(device="cpu", iteration=it)
+            loss = _forward(cond, itv)
         if not _new_records(report, rec, before, static, kind):
             report("sampler-calls", kind, "the condition never sampled its sampler")
             break
@@ -1270,11 +1386,11 @@ def _run_periodic(spec, ctx):
     ffeat = kind + ("|static-data-functions" if static and fns else "")
     resample = static and bool(spec["sampler"].get("resample"))
     N = 1
-    for it in range(int(spec["iters"])):
+    for it, itv in enumerate(_schedule(spec)):
         before, calls = (len(rec.records) if rec else 0), len(spy.calls)
         with ctx.lib("forward", feature=ffeat):
             _train_start(spec, cond, it)
-            loss = cond(device="cpu", iteration=it)
+            loss = _forward(cond, itv)
         if rec is not None and not _new_records(report, rec, before, static, kind,
                                                 "non_periodic_sampler"):
             report("sampler-calls", kind, "the condition never sampled its sampler")
@@ -1349,11 +1465,11 @@ def _run_integro(spec, ctx):
     ffeat = kind + ("|static-data-functions" if static and fns else "")
     resample = static and bool(spec["sampler"].get("resample"))
     N = M = 0
-    for it in range(int(spec["iters"])):
+    for it, itv in enumerate(_schedule(spec)):
         before, ibefore, calls = len(rec.records), len(irec.records), len(spy.calls)
         with ctx.lib("forward", feature=ffeat):
             _train_start(spec, cond, it)
-            loss = cond(device="cpu", iteration=it)
+            loss = _forward(cond, itv)
         ok1 = _new_records(report, rec, before, static, kind)
         ok2 = _new_records(report, irec, ibefore, istatic, kind, "integral_sampler")
         if not (ok1 and ok2):
@@ -1493,17 +1609,26 @@ def _run_pideeponet(spec, ctx):
         report("weight", kind, f"cond.weight={cond.weight!r}, given {spec['weight']!r}")
     ffeat = kind + ("|static-data-functions" if static and fns else "")
     N = F = 0
-    for it in range(int(spec["iters"])):
+    prev = object()
+    stale_risk = False
+    for it, itv in enumerate(_schedule(spec)):
+        # DeepONet._forward_branch draws new function parameters once per iteration NUMBER: a
+        # call with the iteration value of the previous call (validation: always None) may keep
+        # the function batch; every other call has to draw exactly one new batch
+        same, prev = it > 0 and itv == prev, itv
+        stale_risk = stale_risk or same
         before, calls = len(rec.records), len(spy.calls)
         pbefore = [len(p.records) for p, _, _ in sets]
         with ctx.lib("forward", feature=ffeat):
             _train_start(spec, cond, it)
-            loss = cond(device="cpu", iteration=it)
+            loss = _forward(cond, itv)
         if not _new_records(report, rec, before, static, kind, "input_sampler"):
             report("sampler-calls", kind, "the condition never sampled its input sampler")
             break
         fine = True
         for (p, _, pst), b0 in zip(sets, pbefore):
+            if same and not pst and len(p.records) == b0 and p.records:
+                continue
             fine = _new_records(report, p, b0, pst, kind, "function-set parameter sampler") and fine
         if not fine or not drec.records:
             report("sampler-calls", kind, "function parameters / discretisation points never sampled")
@@ -1561,9 +1686,14 @@ def _run_pideeponet(spec, ctx):
         else:
             _scalar_check(report, kind, loss, prop, prop)
     report.flush()
+    fin = any(f[0] in spec["sig"]["names"] for f in spec["fout"])
+    fresh_t = not static and any(g["type"] == "random" and any(v[0] == "t" for v in g["vars"])
+                                 for g in spec["sampler"]["groups"])
     return {"nontrivial": True,
             "classes": _classes(spec, net, prod, [f"fsets{len(sets)}"]
-                                + (["fset-in-residual"] if any(f[0] in spec["sig"]["names"] for f in spec["fout"]) else [])),
+                                + (["fset-in-residual"] if fin else [])
+                                + (["fset-in-residual+repeated-iteration+fresh-t-rows"]
+                                   if fin and stale_risk and fresh_t else [])),
             "summary": {"rows": int(N), "functions": int(F), "derivs": len(pairs)}}
 
 
@@ -1656,12 +1786,12 @@ def _run_data(spec, ctx):
     if cond.weight != spec["weight"]:
         report("weight", kind, f"cond.weight={cond.weight!r}, given {spec['weight']!r}")
     ragged = n % bs != 0 and n > bs
-    for it in range(int(spec["iters"])):
+    for it, itv in enumerate(_schedule(spec)):
         before = len(loader.records)
         calls = len(spy.calls) if spy else 0
         with ctx.lib("forward", feature=kind + ("|full" if full else "")):
             _train_start(spec, cond, it)
-            loss = cond(device="cpu", iteration=it)
+            loss = _forward(cond, itv)
         new = loader.records[before:]
         if (not full and len(new) != 1) or (full and len(new) < 1):
             report("sampler-calls", kind, f"{len(new)} batches drawn from the loader in one "
@@ -1747,12 +1877,12 @@ def _run_deeponet_data(spec, ctx):
         cond = tpc.DeepONetDataCondition(net.model, loader, **kw)
     if cond.weight != spec["weight"]:
         report("weight", kind, f"cond.weight={cond.weight!r}, given {spec['weight']!r}")
-    for it in range(int(spec["iters"])):
+    for it, itv in enumerate(_schedule(spec)):
         before = len(loader.records)
         calls = len(spy.calls) if spy else 0
         with ctx.lib("forward", feature=kind + ("|full" if full else "")):
             _train_start(spec, cond, it)
-            loss = cond(device="cpu", iteration=it)
+            loss = _forward(cond, itv)
         new = loader.records[before:]
         if (not full and len(new) != 1) or (full and len(new) < 1):
             report("sampler-calls", kind, f"{len(new)} batches drawn from the loader in one forward")
@@ -1795,11 +1925,11 @@ def _run_parameter(spec, ctx):
         cond = tpc.ParameterCondition(param, spy.fn, spec["weight"])
     if cond.weight != spec["weight"]:
         report("weight", kind, f"cond.weight={cond.weight!r}, given {spec['weight']!r}")
-    for it in range(int(spec["iters"])):
+    for it, itv in enumerate(_schedule(spec)):
         calls = len(spy.calls)
         with ctx.lib("forward", feature=kind):
             _train_start(spec, cond, it)
-            loss = cond(device="cpu", iteration=it)
+            loss = _forward(cond, itv)
         if len(spy.calls) - calls != 1:
             report("residual-calls", kind, f"penalty called {len(spy.calls) - calls} times")
             break
